@@ -139,6 +139,16 @@ def fixed_imports():
     out.append(([B.cmt("Creator", "x"), B.item("grp", runs=sec(L, 0x84, [(0, 9)]))], L, True))
     L = B.Lines()
     out.append(([B.cmt("Bf3Update", "1"), B.item("grp", runs=sec(L, 0x50, [(0, 9)]))], L, True))
+    # 7 EVERY tag type 0x00..0xFD (0xFE / 0xFF are the group markers) as the type of a section's only line, and as the type
+    #   of a second line behind a base-type line of the range it belongs to: base types convert, continuation pages without
+    #   their base are not convertible, everything else is an unknown tag type
+    for ty in range(0xFE):
+        L = B.Lines()
+        out.append(([B.cmt("Bf3Update", "1"), B.item("grp", runs=B.to_runs(L, [(ty, 0, 3)]))], L, True))
+        base = [b for b in B.PAGES if b < ty < b + B.PAGES[b]]
+        if base:
+            L = B.Lines()
+            out.append(([B.cmt("Bf3Update", "1"), B.item("grp", runs=B.to_runs(L, [(base[0], 0, 3), (ty, 0, 4)]))], L, True))
     return out
 
 
